@@ -125,6 +125,17 @@ func pairStrings(gs []*object.FromExtendedSpatialIDToQuadkeyAndVerticalID) []str
 }
 
 func driveDeterm(t *Tracer, r Rng, n int) {
+	// regression input of repaired defect D13 (corridor verdict depended on the measurement order)
+	{
+		fb := math.Float64frombits
+		p0, e0 := object.NewPoint(fb(0xc039804da120a1c8), fb(0xc049bf0496a6c475), fb(0x4160096a9c768ae0))
+		p1, e1 := object.NewPoint(fb(0xc039804d9f908f20), fb(0xc049bf0496a6c475), fb(0x4160096a9c768ae0))
+		if e0 == nil && e1 == nil {
+			evDeterm(t, r, "GetExtendedSpatialIdsWithinRadiusOfLine", true, false, nil, func(in []string) ([]string, error) {
+				return transform.GetExtendedSpatialIdsWithinRadiusOfLine(p0, p1, 0.0030265520390968877, 33, 26, false)
+			}, map[string]any{"case": "D13 regression"})
+		}
+	}
 	for i := 0; i < n; i++ {
 		hD, vD := r.In(0, 10), r.In(0, 10)
 		w := r.randomWindow(hD, vD, false)
